@@ -19,6 +19,7 @@
 #include <igris/container/vector.h>
 #include <igris/container/flat_map.h>
 #include <igris/container/flat_set.h>
+#include "C02/flat_ops.h" // g_fa_fired
 
 // implemented in C02_compat.cpp (flat_map/flat_set/std::map/std::set over igris::vector)
 std::string c02_compat(const std::string &line);
@@ -134,8 +135,13 @@ static void run_op(const std::vector<std::string> &w, const std::string &line, o
         g_mach->step(w, o);
     else if (g_mode == 2 || g_mode == 3)
     {
+        long fired = g_fa_fired;
         o.result = g_mode == 2 ? c02_flat_step(line) : c02_compat(line);
-        std::string exp = c02_mirror_step(w, o);
+        // `afail <k> <op …>`: the oracle is the plain operation on std::map / std::set
+        bool af = w[0] == "afail" && w.size() > 2;
+        if (af)
+            o.tag(g_fa_fired != fired ? "flat-alloc-refused" : "flat-alloc-not-reached");
+        std::string exp = c02_mirror_step(af ? std::vector<std::string>(w.begin() + 2, w.end()) : w, o);
         if (o.result != exp)
             o.fail("std::map/std::set answer '" + exp + "'");
     }
